@@ -47,8 +47,10 @@ def rule_reuse_first(fx, col):
                                     # cooldown check before the claim
                                     # a COOLDOWN -> UNUSED release attempt (directly or in a callee) precedes the claim
                                     def releases(s):
+                                        # the release attempt: an exchange out of COOLDOWN (to UNUSED directly, or to the
+                                        # exclusive checking state whose verdict store follows)
                                         return s.cls == 'in_use' and s.op.startswith('compare_exchange') and \
-                                            U.int_of(s.body, s.arg(1)) == cx.NODE_COOLDOWN and U.int_of(s.body, s.arg(2)) == cx.NODE_UNUSED
+                                            U.int_of(s.body, s.arg(1)) == cx.NODE_COOLDOWN and U.int_of(s.body, s.arg(2)) not in (None, cx.NODE_USED, cx.NODE_COOLDOWN)
                                     cc = [x for x, t3, b3 in cx.local_calls(cb) if cx.summ.has_site(b3.key, releases)]
                                     own = [s.bb for s in cx.summ.sites_by_body.get(cb.key, ()) if releases(s)]
                                     okc = (bool(cc) and all(cb.dominates(x, claims[0].bb) and x != claims[0].bb for x in cc)) or \
